@@ -263,7 +263,7 @@ impl Prop for C05 {
         if stage < sq.len() {
             let name = format!("tokens{}", stage);
             for i in a..b {
-            out.idx = Some(i);
+            out.at(i);
                 let spaced = sq[stage].spaced(i);
                 judge(&spaced, &ops, &name, out);
                 track(&spaced, out);
@@ -282,7 +282,7 @@ impl Prop for C05 {
         if stage == sq.len() {
             let sw = sweep(tier);
             for i in a..b {
-            out.idx = Some(i);
+            out.at(i);
                 let s = sw.get(i);
                 judge(&s, &ops, "strings", out);
                 track(&s, out);
@@ -293,7 +293,7 @@ impl Prop for C05 {
         }
         if stage == sq.len() + 1 {
             for i in a..b {
-                out.idx = Some(i);
+                out.at(i);
                 registered_case(i, out);
             }
             return;
@@ -301,7 +301,7 @@ impl Prop for C05 {
         if stage == sq.len() + 3 {
             let sw = sweep_wide(tier);
             for i in a..b {
-                out.idx = Some(i);
+                out.at(i);
                 let s = sw.get(i);
                 judge(&s, &ops, "strings-wide", out);
                 track(&s, out);
@@ -312,7 +312,7 @@ impl Prop for C05 {
         }
         let progs = corruption_programs(tier);
         for i in a..b {
-            out.idx = Some(i);
+            out.at(i);
             let p = &progs[i as usize];
             if !judge(p, &ops, "corruptions", out) {
                 out.fail("generator:valid-program-rejected-by-model", format!("corruptions|{}", show(p)), "model rejects a generated program");
